@@ -77,12 +77,12 @@ def fresh_value(I, st, ty, crate, name, depth=0, opts=None):
         raise Gap('symbolic value too deep: ' + ty)
     if td.kind == 'struct':
         return Agg(td.name, [fresh_value(I, st, f[1], td.crate, '%s_%s' % (name, f[0] if f[0] else i), depth + 1, opts)
-                             for i, f in enumerate(td.fields)])
+                             for i, f in enumerate(td.fields)], td=td)
     # enum
     alts = []
     for vi, (vn, vk, vf) in enumerate(td.variants):
         alts.append(Agg(td.name, [fresh_value(I, st, f[1], td.crate, '%s_%s_%s' % (name, vn, f[0] if f[0] else i),
-                                              depth + 1, opts) for i, f in enumerate(vf)], vi, vn))
+                                              depth + 1, opts) for i, f in enumerate(vf)], vi, vn, td=td))
     if len(alts) == 1:
         return alts[0]
     tag = I.fresh(name + '_tag')
@@ -107,7 +107,7 @@ class Mk:
             vals.append(fields.pop(fname))
         if fields:
             raise Gap('Mk.struct(%s): unknown fields %s' % (ty, list(fields)))
-        return Agg(td.name, vals)
+        return Agg(td.name, vals, td=td)
 
     def variant(self, ty, vname, *pos, crate=None, **fields):
         td = self.I.types.lookup(ty, crate)
@@ -125,8 +125,8 @@ class Mk:
                 vals.append(fields.pop(fname))
             if fields:
                 raise Gap('Mk.variant(%s::%s): unknown fields %s' % (ty, vname, list(fields)))
-            return Agg(td.name, vals, vi, vn)
-        return Agg(td.name, pos, vi, vn)
+            return Agg(td.name, vals, vi, vn, td=td)
+        return Agg(td.name, pos, vi, vn, td=td)
 
     def field(self, v, ty, fname, crate=None):
         td = self.I.types.lookup(ty, crate)
